@@ -637,8 +637,13 @@ impl<C: Config, Q: Query> Snapshot<C, Q> {
         crate::verif_pause!("c.up.before", Some(self.query_id()));
         self.upgrade_to_exclusive().await;
         let timsestamp = caller_information.timestamp();
+        // see `execute_query`: the guarded block keeps the computation phase
+        // alive on its own
+        let active_computation_guard =
+            caller_information.clone_active_computation_guard();
 
         async move {
+            let _active_computation_guard = active_computation_guard;
             crate::verif_pause!("c.g.start", Some(self.query_id()));
             self.clean_query(clean_edges, new_tfc, timsestamp).await;
             crate::verif_pause!("c.g.cleaned", Some(self.query_id()));
